@@ -108,9 +108,13 @@ void harness(void) {
 #elif defined(SER_SIZE)
   size_t r = SER_FN(it);
 #if defined(SER_KIND_ARRAY) || defined(SER_KIND_MAP) || defined(SER_KIND_INDEF_STRING) || defined(SER_KIND_INDEF_BYTESTRING) || defined(SER_KIND_TAG)
+#if defined(VERIF_MAP_HEAD_ONLY)
+  __CPROVER_assert(!(r != 0 && it->metadata.map_metadata.allocated > 70000), "COVER empty map with a large capacity");
+#else
   __CPROVER_assert(r != 0, "COVER size not representable (0)");
 #if !defined(SER_KIND_TAG)
   __CPROVER_assert(!(r != 0 && g_z.calls >= 3), "COVER size over three or more children");
+#endif
 #endif
 #endif
   __CPROVER_assert(r == 0, "COVER size computed");
